@@ -11,9 +11,11 @@ import (
 	"context"
 	"crypto/sha256"
 	"encoding/base64"
+	"encoding/json"
 	"fmt"
 	"math/rand"
 	"net/http"
+	"net/http/httptest"
 	"net/url"
 	"strings"
 	"testing"
@@ -28,6 +30,9 @@ type c02DPoPVal struct {
 	Key      int    `json:"key"`                 // the key that signs the proof (and is embedded in its header)
 	ThumbKey int    `json:"thumb_key"`           // the key whose thumbprint the caller supplies (what introspection reported as cnf.jkt)
 	ThumbVar string `json:"thumb_var,omitempty"` // "" | upper | padded | empty : a variant spelling of that thumbprint
+	// ThumbFrom: the resource server's real procedure - the thumbprint is the cnf.jkt the REAL introspection endpoint reports for
+	// this token (name) right now ("" when the answer is inactive or carries no cnf); ThumbKey / ThumbVar are not used then
+	ThumbFrom string `json:"thumb_from,omitempty"`
 	Htm      string `json:"htm"`                 // claims of the proof
 	Htu      string `json:"htu"`
 	Method   string `json:"method"` // what the resource server saw
@@ -86,6 +91,29 @@ func (w *c02World) keyThumb(i int) string {
 	}
 	tp, _ := p.Headers.JWK().Thumbprint(5)
 	return base64.RawURLEncoding.EncodeToString(tp)
+}
+
+// introspectedThumb: cnf.jkt of the real (plain) introspection answer for the token, "" when inactive / not key-bound / error
+func (w *c02World) introspectedThumb(name string) string {
+	resp, err := w.w.IntrospectAccessToken(w.ctx("", "application/x-www-form-urlencoded"),
+		IntrospectAccessTokenRequestObject{Body: &TokenIntrospectionRequest{Token: w.realToken(name)}})
+	if err != nil {
+		return ""
+	}
+	rec := httptest.NewRecorder()
+	if err := resp.VisitIntrospectAccessTokenResponse(rec); err != nil {
+		return ""
+	}
+	var body struct {
+		Active bool `json:"active"`
+		Cnf    *struct {
+			Jkt string `json:"jkt"`
+		} `json:"cnf"`
+	}
+	if json.Unmarshal(rec.Body.Bytes(), &body) != nil || !body.Active || body.Cnf == nil {
+		return ""
+	}
+	return body.Cnf.Jkt
 }
 
 var c02DPoPReasons = []string{"failed to parse DPoP header", "jkt mismatch", "method mismatch", "invalid htu claim", "invalid url",
@@ -161,6 +189,11 @@ func (w *c02World) execDPoPVal(op *c02Op) string {
 	d.SURL = c02Strip(d.URL)
 	thumb := w.keyThumb(d.ThumbKey % n)
 	d.Thumb = fmt.Sprintf("jkt#%d", d.ThumbKey%n)
+	if d.ThumbFrom != "" {
+		thumb = w.introspectedThumb(d.ThumbFrom)
+		d.Thumb = w.dpopJkt[thumb]
+		d.ThumbVar = ""
+	}
 	switch d.ThumbVar {
 	case "upper":
 		if up := strings.ToUpper(thumb); up != thumb {
@@ -171,11 +204,20 @@ func (w *c02World) execDPoPVal(op *c02Op) string {
 	case "empty":
 		thumb, d.Thumb = "", ""
 	}
+	if op.Fault == "jti-get" && w.redis {
+		w.failNonceGet, w.failKeyPart = true, "nonceonce"
+		defer func() { w.failNonceGet, w.failKeyPart = false, "" }()
+	} else {
+		op.Fault = ""
+	}
 	op.T = w.nowNs()
 	return c02Recover(func() string {
 		resp, err := w.w.ValidateDPoPProof(context.Background(), ValidateDPoPProofRequestObject{Body: &ValidateDPoPProofJSONRequestBody{
 			DpopProof: proof, Method: d.Method, Thumbprint: thumb, Token: w.realToken(d.Token), Url: d.URL}})
 		if err != nil {
+			if strings.Contains(err.Error(), "injected read failure") {
+				return "err:jti-store-error"
+			}
 			return c02Err(err)
 		}
 		r, ok := resp.(ValidateDPoPProof200JSONResponse)
@@ -201,8 +243,18 @@ func (w *c02World) execDPoPVal(op *c02Op) string {
 }
 
 type c02DPVGen struct {
-	seq  int
-	used []c02DPoPVal // proofs validated so far in this world (for replays)
+	seq    int
+	used   []c02DPoPVal   // proofs validated so far in this world (for replays)
+	tokKey map[string]int // token name -> index of the DPoP key it was bound to at issuance (absent = bearer token)
+}
+
+func (v *c02DPVGen) note(token string, d *c02DPoP) {
+	if d != nil && d.Kind == "valid" {
+		if v.tokKey == nil {
+			v.tokKey = map[string]int{}
+		}
+		v.tokKey[token] = d.Idx
+	}
 }
 
 var c02DPoPURLs = []string{"https://rs.example/api", "https://rs.example/api?x=1", "http://rs.example:8080/api#frag", "https://rs.example/API",
@@ -218,7 +270,14 @@ func (g *c02Gen) dpvBase() c02DPoPVal {
 	k := g.rng.Intn(3)
 	u := c02DPoPURLs[g.rng.Intn(3)]
 	m := c02DPoPMethods[g.rng.Intn(2)]
-	return c02DPoPVal{Key: k, ThumbKey: k, Htm: m, Htu: u, Method: m, URL: c02DPoPURLs[g.rng.Intn(3)], Token: tok, Jti: fmt.Sprintf("jti-%d", g.dpv.seq)}
+	d := c02DPoPVal{Key: k, ThumbKey: k, Htm: m, Htu: u, Method: m, URL: c02DPoPURLs[g.rng.Intn(3)], Token: tok, Jti: fmt.Sprintf("jti-%d", g.dpv.seq)}
+	if bound, ok := g.dpv.tokKey[tok]; ok && g.rng.Intn(3) > 0 {
+		// the real procedure: thumbprint from the introspection of this very token, proof by the key it was bound to
+		d.ThumbFrom, d.Key, d.ThumbKey = tok, bound, bound
+	} else if len(g.issued) > 0 && g.rng.Intn(4) == 0 {
+		d.ThumbFrom = tok // a bearer token (or a proof by whatever key): introspection reports no / another cnf
+	}
+	return d
 }
 
 var c02DPoPDefects = []string{"other-key", "thumb-upper", "thumb-padded", "thumb-empty", "other-method", "method-case", "other-url", "url-case", "url-path",
@@ -229,6 +288,9 @@ func (g *c02Gen) dpvApply(d *c02DPoPVal, defect string) {
 	switch defect {
 	case "other-key":
 		d.ThumbKey = (d.Key + 1 + g.rng.Intn(2)) % 3
+		if d.ThumbFrom != "" {
+			d.Key = d.ThumbKey // the proof is made with another key than the one the token is bound to
+		}
 	case "thumb-upper":
 		d.ThumbVar = "upper"
 	case "thumb-padded":
@@ -314,6 +376,7 @@ func c02TargetedDPoP(t *testing.T, out *c02Out, rng *rand.Rand) {
 		out.emit(&op, line)
 		if strings.HasPrefix(line, "200 ") {
 			g.issued = append(g.issued, strings.Fields(line)[1][len("token="):])
+			g.dpv.note(g.issued[len(g.issued)-1], op.DPoP)
 		}
 	}
 	run := func(d c02DPoPVal, defects []string) string {
@@ -340,6 +403,21 @@ func c02TargetedDPoP(t *testing.T, out *c02Out, rng *rand.Rand) {
 		run(bad, []string{defect})
 		run(base, nil)                    // the refused validation did not burn the jti
 		run(base, []string{"jti-reused"}) // and now it is burned
+	}
+	// the thumbprint taken from the real introspection answer: proof by the bound key, by each other key, for a bearer token
+	for _, tok := range g.issued {
+		bound, ok := g.dpv.tokKey[tok]
+		for k := 0; k < 3; k++ {
+			d := g.dpvBase()
+			d.Token, d.ThumbFrom, d.Key, d.ThumbKey, d.AthOf = tok, tok, k, k, ""
+			var defects []string
+			if !ok {
+				defects = []string{"bearer-token"}
+			} else if k != bound {
+				defects = []string{"other-key"}
+			}
+			run(d, defects)
+		}
 	}
 	// the jti is remembered for the lifetime of an access token: replays before and after
 	for _, ms := range []int64{1000, 890000, 8000, 2000} {
